@@ -14,6 +14,7 @@ import (
 	"sort"
 	"strings"
 	"sync"
+	"time"
 )
 
 // Rand is splitmix64; case lists are functions of (seed, tier) only.
@@ -102,6 +103,7 @@ type Runner struct {
 	next    int
 	maxSamp int
 	skip    map[int]bool
+	slowest int
 }
 
 func NewRunner(prop, tier string, seed uint64, batch, nbatch int, journalPath string) *Runner {
@@ -161,6 +163,15 @@ func (r *Runner) Case(desc any, fn func(t *T)) {
 		fmt.Fprintf(r.journal, "%d\t%s\n", i, b)
 		r.journal.Flush()
 	}
+	t0 := time.Now()
+	defer func() {
+		if d := int64(time.Since(t0) / time.Millisecond); d > r.rep.Counters["max_case_ms"] {
+			r.mu.Lock()
+			r.rep.Counters["max_case_ms"] = d
+			r.slowest = i
+			r.mu.Unlock()
+		}
+	}()
 	func() {
 		defer func() {
 			if e := recover(); e != nil {
@@ -303,6 +314,7 @@ func (r *Runner) Finish(path string) {
 		sort.Strings(xs)
 		r.rep.Sets[name] = xs
 	}
+	r.rep.Counters["slowest_case_index"] = int64(r.slowest)
 	r.rep.Done = true
 	b, err := json.Marshal(&r.rep)
 	if err != nil {
